@@ -7,6 +7,8 @@ and for the PROVENANCE part of the location clause:
   R16.4 a report names the file the object itself was read from (source_path set once, read from self), `<file>:<line>: <text>`;
         a type field keeps the line of its field
   R16.5 unit agreement: a docutils line (1-based) is converted where a ParseError (0-based) is built
+  R16.7 the linker that reports a problem and the context object that locates it belong to the same object
+  R16.6 the line of a field generated from a consolidated list item is the line where the item starts (its first node)
 Does not decide: any line arithmetic (offsets inside a docstring are runtime values).
 """
 from __future__ import annotations
@@ -250,3 +252,75 @@ def run(repo: Repo, chk: Check, thorough: bool = False) -> None:
                repo.loc(tk.mod, c))
     chk.require('R16.5', 3)
 
+
+    # ------------------------------------------------------------------ R16.6
+    # a consolidated field (`:Parameters:` + bullet or definition list) is split into one field per item; problems of that field ("documented parameter
+    # does not exist") are reported at the line handed to _add_field.  The item starts at its FIRST node (the term / the paragraph carrying the marked
+    # name); the line of its last node (the description) is one or more lines further down
+    from ..util import values_of as _vo16
+    n66 = 0
+    for f in sorted(repo.funcs.values(), key=lambda g: g.qn):
+        if not (f.cls is not None and f.name.startswith('handle_consolidated_') and f.name.endswith('_list')):
+            continue
+        for c in calls_in(f):
+            if call_name(c) != '_add_field' or len(c.args) < 4:
+                continue
+            n66 += 1
+            la = c.args[3]
+            srcs = _vo16(f, la.id) if isinstance(la, ast.Name) else [la]
+            bad66 = None
+            for v in srcs:
+                lines_ = [x for x in ast.walk(v) if isinstance(x, ast.Attribute) and x.attr == 'line']
+                if not lines_:
+                    bad66 = f'`{norm(v)[:50]}` is not the line of a node'
+                    continue
+                for x in lines_:
+                    recv = x.value
+                    # follow one local (fbody = item[-1]; lineno = fbody.line)
+                    while isinstance(recv, ast.Name) and _vo16(f, recv.id) and not any(isinstance(n, (ast.For,)) and isinstance(n.target, ast.Name) and n.target.id == recv.id for n in f.walk()):
+                        vs = _vo16(f, recv.id)
+                        if len(vs) != 1 and not all(isinstance(v_, ast.Subscript) for v_ in vs):
+                            break
+                        recv = vs[0]
+                    first = isinstance(recv, ast.Subscript) and isinstance(recv.slice, ast.Constant) and recv.slice.value == 0
+                    if not first:
+                        bad66 = f'`{norm(x)}` is the line of `{norm(recv)[:40]}`, not of the first node of the item'
+            chk.ob('R16.6', f'{f.qn} :: `{norm(c.args[0])[:20]}` field reported at the line where its item starts', bad66 is None,
+                   f'line of the first node ({", ".join(norm(v)[:40] for v in srcs)})' if bad66 is None else
+                   bad66 + ': problems of a parameter documented in a consolidated definition list are reported at its description, one or more lines below the entry',
+                   repo.loc(f.mod, c))
+    if n66 < 3:
+        raise AnalysisError(f'R16.6: {n66} _add_field calls found in the consolidated-list handlers (3 confirmed)')
+    chk.require('R16.6', 3)
+
+    # ------------------------------------------------------------------ R16.7
+    # safe_to_stan(parsed, linker, ctx): unresolved references are reported by the linker's object (its docstring_lineno + the offset in the docstring),
+    # rendering failures by ctx.  Both must be the object the docstring is written on: a linker of another object adds that object's docstring_lineno to
+    # an offset that is not relative to it (an attribute documented by an `@ivar` field of its class: the field offset is counted twice)
+    n67 = 0
+    for f in sorted(repo.funcs.values(), key=lambda g: g.qn):
+        if '.test' in f.mod.name:
+            continue
+        for c in calls_in(f):
+            if call_name(c) != 'safe_to_stan' or len(c.args) < 3 or f.name == 'safe_to_stan':
+                continue
+            ln, ctx = c.args[1], c.args[2]
+            owners_: List[str] = []
+            for v in (_vo16(f, ln.id) if isinstance(ln, ast.Name) else [ln]):
+                if isinstance(v, ast.Attribute) and v.attr == 'docstring_linker':
+                    owners_.append(norm(v.value))
+                elif isinstance(v, ast.Call) and call_name(v).endswith('Linker') and v.args:
+                    owners_.append(norm(v.args[0]))
+                else:
+                    owners_.append('?' + norm(v)[:30])
+            if not owners_ or any(o_.startswith('?') for o_ in owners_):
+                continue      # a linker handed in as a parameter: judged at the caller
+            n67 += 1
+            same = all(o_ == norm(ctx) for o_ in owners_)
+            chk.ob('R16.7', f'{f.qn} :: linker and context of `{norm(c.args[0])[:30]}` are the same object', same,
+                   f'both `{norm(ctx)}`' if same else
+                   f'the linker belongs to `{owners_[0]}`, the context is `{norm(ctx)}`: when the two differ (a variable documented by a field of its class or '
+                   'module) an unresolvable reference is reported with the wrong object\'s line added - usually past the end of the docstring', repo.loc(f.mod, c))
+    if n67 < 8:
+        raise AnalysisError(f'R16.7: {n67} safe_to_stan calls with a known linker owner found (10 confirmed by reading)')
+    chk.require('R16.7', 8)
